@@ -44,6 +44,7 @@ SPEC = {
                     "the flat storage of L is modelled column-wise (LayoutOverflow excluded by the theorems, never observed in the correspondence)",
                     "the AMD ordering is an input of the model, validated to be a permutation"],
     "coq_timeout": 2400,
+    "structure_code": 2,   # level A (bitwise / closeF identity with the transcribed-order model) and private-array differences: information only
     "per_shard": 1500,   # bounds the size of every cases_*.v (memory of one coqc); thorough has ~130k cases
 }
 
